@@ -1,19 +1,24 @@
 import Arimaa.Props.C13
 import Arimaa.Lemmas.RsAgreePreview
 import Arimaa.Lemmas.RsAgreeStep
+import Arimaa.Gen.Bridge.GameState_take_action
+import Arimaa.Gen.Bridge.GameState_trapped_animal_for_action
+import Arimaa.Gen.Bridge.PieceBoardState_trapped_piece_bits
 
 /-!
 # C13 — the property at the level of the REGENERATED code
 
 `Gen/Rs.lean` is written by `tools/rs2lean2.py` from the current text of engine.rs / zobrist.rs on every
-run; `Lemmas/RsAgree*.lean` prove that each regenerated function equals
-`Res.guard (hand panic guard) (hand total function)`.  This file puts the agreement theorems of the
-functions C13 rests on into the property's proof closure and restates them as one named obligation
-(`C13_code_agrees`), plus corollaries that speak about the regenerated functions directly.  A change of
-the Rust text of one of these functions breaks an obligation here without any test having to find the input.
+run.  `Gen/Bridge/<fn>.lean` (generated) proves `@Rs.fn = @RsBase.fn` — the current text against the
+baseline text — and `Lemmas/RsAgree*.lean` prove that each baseline function equals
+`Res.guard (hand panic guard) (hand total function)`.  This file puts both, for the functions C13 rests
+on, into the property's proof closure and restates them as one named obligation (`C13_code_agrees`) about
+the CURRENT functions, plus corollaries that speak about them directly.  A change of the Rust text of one
+of these functions that alters behaviour breaks an obligation here without any test having to find the input.
+(written by tools/mkrprops.py)
 -/
 namespace Arimaa
-open Gen GameState Arimaa.Gen.Rs Arimaa.Rt
+open Gen GameState Arimaa.Gen.Rs Arimaa.Rt Arimaa.Gen.Bridge
 
 theorem C13_value_of_ok {α : Type} {x : Res α} {p : Bool} {v w : α} (h : x = Res.guard p v) (hx : x = .ok w) :
     p = false ∧ w = v := by
@@ -21,15 +26,18 @@ theorem C13_value_of_ok {α : Type} {x : Res α} {p : Bool} {v w : α} (h : x = 
   obtain ⟨hp, hv⟩ := Res.guard_eq_ok.mp hx
   exact ⟨hp, hv.symm⟩
 
-/-- the agreement theorems C13 rests on, as one obligation -/
+/-- the agreement theorems C13 rests on, about the CURRENT functions, as one obligation -/
 theorem C13_code_agrees :
     (∀ (s : GameState) (a : Action), GameState_trapped_animal_for_action s a = Res.guard (s.trappedAnimalForActionPanics a) (s.trappedAnimalForAction a)) ∧
     (∀ (s : GameState) (a : Action), GameState_take_action s a = Res.guard (s.takeActionPanics a) (s.takeAction a)) ∧
     (∀ b : Board, PieceBoardState_trapped_piece_bits b = b.trappedPieceBits) :=
-  ⟨RsAgree.trapped_animal_for_action_eq, RsAgree.take_action_eq, RsAgree.trapped_piece_bits⟩
+  ⟨(by simp only [bridge_GameState_trapped_animal_for_action]; exact RsAgree.trapped_animal_for_action_eq),
+   (by simp only [bridge_GameState_take_action]; exact RsAgree.take_action_eq),
+   (by simp only [bridge_PieceBoardState_trapped_piece_bits]; exact RsAgree.trapped_piece_bits)⟩
 
 theorem C13_code_preview (s : GameState) (a : Action) (r : Option (Nat × Piece × Bool))
-    (h : GameState_trapped_animal_for_action s a = .ok r) : r = s.trappedAnimalForAction a :=
-  (C13_value_of_ok (RsAgree.trapped_animal_for_action_eq s a) h).2
+    (h : GameState_trapped_animal_for_action s a = .ok r) : r = s.trappedAnimalForAction a := by
+  simp only [bridge_GameState_trapped_animal_for_action] at h
+  exact (C13_value_of_ok (RsAgree.trapped_animal_for_action_eq s a) h).2
 
 end Arimaa
